@@ -59,7 +59,7 @@ def float_arith_family():
 def build(ctx, n_gen, prop):
     """-> dict pid -> {prog_true, truth_true, prog_mixed, truth_mixed, native_prog}, plus TLC results"""
     base = base_corpus(ctx, n_gen)
-    calls = {pid: shadow_calls(p, hash(pid) % 100000 + ctx.seed) for pid, p in base.items()}
+    calls = {pid: shadow_calls(p, __import__('zlib').crc32(pid.encode()) % 100000 + ctx.seed) for pid, p in base.items()}
     base = {pid: p for pid, p in base.items() if calls[pid]}
     # pass A: what do the calls return?  (NanoSem decides)
     phase_a = {pid: with_print_shadows(p, calls[pid]) for pid, p in base.items()}
@@ -216,6 +216,16 @@ def run(ctx):
             hit = None
             for s in sws:
                 w = rc["%s|%s|%s" % (pid, kind, s)]["shadows"]
+                stop = [j for j, x in enumerate(w) if x["status"] not in ("ok", "skipped")]
+                if stop and w[stop[0]]["status"].startswith("fault:") and not built[pid].get("twin_only"):
+                    # under this deviation a block ends in a run-time fault: the evaluator prints that block's output up to
+                    # the fault, gives no verdict and runs nothing after it
+                    j = stop[0]
+                    if len(tests) == j + 1 and tests[j]["verdict"] is None and tests[j]["out"].startswith(render_out(w[j]["out"])) and \
+                            "rror" in tests[j]["out"][len(render_out(w[j]["out"])):] and \
+                            all(t["out"] == render_out(x["out"]) and (t["verdict"] == "FAILED") == (x["fails"] > 0) for t, x in zip(tests[:j], w[:j])):
+                        hit = s; break
+                    continue
                 if len(w) == len(tests) and any(x["status"] == "ok" for x in w) and not built[pid].get("twin_only") \
                         and all(t["out"] == render_out(x["out"]) and (t["verdict"] == "FAILED") == (x["fails"] > 0)
                                                 for t, x in zip(tests, w) if x["status"] == "ok"):
